@@ -192,7 +192,7 @@ constant_to_target = dict(
     eps="numpy.finfo({type}).eps",
     largest="numpy.finfo({type}).max",
     posinf="{type}(numpy.inf)",
-    neginf="-{type}(numpy.inf)",
+    neginf="{type}(-numpy.inf)",
     pi="{type}(numpy.pi)",
     nan="{type}(numpy.nan)",
 )
